@@ -291,7 +291,7 @@ func GenBoot(t *rapid.T) BCase {
 	var c BCase
 	c.N = rapid.SampledFrom(bootNs).Draw(t, "N")
 	c.Conf = genConf(t, c.N)
-	kind := rapid.SampledFrom([]string{"smallint", "smallint", "float", "float", "float", "ns", "ns", "wide", "signed"}).Draw(t, "kind")
+	kind := rapid.SampledFrom([]string{"smallint", "smallint", "float", "float", "float", "ns", "ns", "wide", "signed", "subnormal"}).Draw(t, "kind")
 	c.Kind = kind
 	val := func() float64 {
 		switch kind {
@@ -303,6 +303,9 @@ func GenBoot(t *rapid.T) BCase {
 			return float64(rapid.IntRange(1000000, 2000000).Draw(t, "v"))
 		case "wide":
 			return math.Pow(10, rapid.Float64Range(-6, 9).Draw(t, "v"))
+		case "subnormal":
+			// positive measurements a few units above the smallest positive float64
+			return float64(rapid.IntRange(1, 12).Draw(t, "v")) * 5e-324
 		default:
 			return float64(rapid.IntRange(-3, 3).Draw(t, "v"))
 		}
